@@ -127,7 +127,7 @@ func loadWorld(dir, arch string) (*World, error) {
 			if strings.Contains(fn.Synthetic, "wrapper") {
 				continue
 			}
-			w.Funcs[fn.String()] = fn
+			w.Funcs[fnKey(fn)] = fn
 		}
 	}
 	// generic method origins are not "reachable" for AllFunctions: add them through the type-checker's objects
@@ -136,13 +136,13 @@ func loadWorld(dir, arch string) (*World, error) {
 		switch o := scope.Lookup(n).(type) {
 		case *types.Func:
 			if f := prog.FuncValue(o); f != nil {
-				w.Funcs[f.String()] = f
+				w.Funcs[fnKey(f)] = f
 			}
 		case *types.TypeName:
 			if nt, ok := o.Type().(*types.Named); ok {
 				for i := 0; i < nt.NumMethods(); i++ {
 					if f := prog.FuncValue(nt.Method(i)); f != nil {
-						w.Funcs[f.String()] = f
+						w.Funcs[fnKey(f)] = f
 					}
 				}
 			}
@@ -151,7 +151,7 @@ func loadWorld(dir, arch string) (*World, error) {
 	// anonymous functions
 	for _, f := range w.sortedFuncs() {
 		for _, a := range f.AnonFuncs {
-			w.Funcs[a.String()] = a
+			w.Funcs[fnKey(a)] = a
 		}
 	}
 	w.Interp = newInterp(prog, w.SSA, w.Sizes)
@@ -188,3 +188,6 @@ func (w *World) Fn(name string) *ssa.Function {
 	_ = pfx
 	return nil
 }
+
+// fnKey is the canonical name of an SSA function (type arguments comma-separated).
+func fnKey(fn *ssa.Function) string { return strings.ReplaceAll(fn.String(), " ", ",") }
